@@ -349,7 +349,7 @@ func (p *Parser) parseWindowSpec() (*ast.WindowSpec, error) {
 
 	// Parse frame clause (ROWS/RANGE with bounds)
 	if p.isAnyType(models.TokenTypeRows, models.TokenTypeRange) {
-		frameType := p.currentToken.Literal
+		frameType := p.keywordSpelling()
 		p.advance() // Consume ROWS/RANGE
 
 		frameClause, err := p.parseWindowFrame(frameType)
